@@ -75,6 +75,16 @@ func startPCS(dir string, resp map[string]world.Resp) (*pcsNet, error) {
 			http.Error(rw, "gateway timeout", 504)
 			return
 		}
+		if ok && strings.HasPrefix(rp.Err, "content-length:") { // a body shorter than the length the response declares
+			for k, v := range rp.H {
+				for _, x := range v {
+					rw.Header().Add(k, x)
+				}
+			}
+			rw.Header().Set("Content-Length", strings.TrimPrefix(rp.Err, "content-length:"))
+			rw.Write(rp.B)
+			return
+		}
 		if !ok || rp.Err != "" {
 			http.Error(rw, "not found", 404)
 			return
@@ -130,6 +140,11 @@ type toolRun struct {
 	Want2  int      `json:"want2"`  // alternative acceptable code (-1 none)
 	RefOK  bool     `json:"ref_ok"` // the reference says: verifies and meets the effective policy
 	Stdin  []byte   `json:"-"`
+	// StdinFile: standard input is this regular file, opened and positioned at StdinOff (what "tool <file" or a parent that
+	// already consumed a header gives); StdinSocket: it is one end of a socket pair the quote was written to (inetd style)
+	StdinFile   string `json:"stdin_file,omitempty"`
+	StdinOff    int64  `json:"stdin_off,omitempty"`
+	StdinSocket bool   `json:"stdin_socket,omitempty"`
 	Env    []string `json:"env,omitempty"` // extra environment of the tool process
 	Exit   int      `json:"exit"`
 	Stderr string   `json:"stderr"`
@@ -229,6 +244,28 @@ func c19(x *mon.Ctx) {
 	mkNet("root-crl-down", w, func(u string) bool { return strings.HasSuffix(u, ".der") })
 	mkNet("tcbinfo-down", w, func(u string) bool { return strings.Contains(u, "/tcb?") })
 	mkNet("qeidentity-down", w, func(u string) bool { return strings.Contains(u, "/qe/identity") })
+	for name, v := range map[string]struct {
+		match  func(u string) bool
+		length string
+	}{
+		"tcbinfo-declares-8-EiB":    {func(u string) bool { return strings.Contains(u, "/tcb?") }, "9223372036854775807"},
+		"qeidentity-declares-3-GiB": {func(u string) bool { return strings.Contains(u, "/qe/identity") }, "3221225472"},
+		"pck-crl-declares-1-TiB":    {func(u string) bool { return strings.Contains(u, "pckcrl") }, "1099511627776"},
+		"root-crl-declares-8-EiB":   {func(u string) bool { return strings.HasSuffix(u, ".der") }, "9223372036854775807"},
+	} {
+		resp := w.Responses()
+		for u, r := range resp {
+			if v.match(u) {
+				r.Err = "content-length:" + v.length
+				resp[u] = r
+			}
+		}
+		if n, err := startPCS(dir, resp); err == nil {
+			nets[name] = n
+		} else {
+			x.Broken("cannot start the in-process PCS: " + err.Error())
+		}
+	}
 	for name, match := range map[string]func(u string) bool{
 		"pck-crl-slow":  func(u string) bool { return strings.Contains(u, "pckcrl") },
 		"root-crl-slow": func(u string) bool { return strings.HasSuffix(u, ".der") },
@@ -251,7 +288,8 @@ func c19(x *mon.Ctx) {
 			n.stop()
 		}
 	}()
-	if len(nets) != 10 {
+	if len(nets) != 14 {
+		x.Broken(fmt.Sprintf("only %d of the 14 in-process PCS variants started", len(nets)))
 		return
 	}
 	// a proxy address nobody listens on
@@ -285,6 +323,30 @@ func c19(x *mon.Ctx) {
 		t.Stdin = quote
 	}
 	// ---- bundles
+	{ // standard input that is not a pipe: a regular file positioned somewhere inside (the quote is what is read from there on),
+		// a socket
+		forgedB, _ := os.ReadFile(forgedf)
+		gf := write("genuine-then-forged.bin", append(append([]byte{}, quote...), forgedB...))
+		fg := write("forged-then-genuine.bin", append(append([]byte{}, forgedB...), quote...))
+		jg := write("junk-then-genuine.bin", append([]byte("HEADER: 1234\n"), quote...))
+		for _, in := range [][]string{{"-in", "-"}, {"-in=-"}, {}} {
+			sp := strings.Join(in, " ")
+			t := add("stdin-kind", "file-at-0/"+sp, "", 0, -1, true, append(append([]string{}, in...), "-trusted_roots", rootf)...)
+			t.StdinFile = qf
+			t = add("stdin-kind", "file-positioned-at-the-forged-quote-behind-a-genuine-one/"+sp, "", 2, -1, false, append(append([]string{}, in...), "-trusted_roots", rootf)...)
+			t.StdinFile, t.StdinOff = gf, int64(len(quote))
+			t = add("stdin-kind", "file-positioned-at-the-genuine-quote-behind-a-forged-one/"+sp, "", 0, -1, true, append(append([]string{}, in...), "-trusted_roots", rootf)...)
+			t.StdinFile, t.StdinOff = fg, int64(len(forgedB))
+			t = add("stdin-kind", "file-positioned-behind-a-header/"+sp, "", 0, -1, true, append(append([]string{}, in...), "-trusted_roots", rootf)...)
+			t.StdinFile, t.StdinOff = jg, int64(len("HEADER: 1234\n"))
+			t = add("stdin-kind", "file-at-its-end/"+sp, "", 1, 2, false, append(append([]string{}, in...), "-trusted_roots", rootf)...)
+			t.StdinFile, t.StdinOff = qf, int64(len(quote))
+			t = add("stdin-kind", "socket/"+sp, "", 0, -1, true, append(append([]string{}, in...), "-trusted_roots", rootf)...)
+			t.Stdin, t.StdinSocket = quote, true
+			t = add("stdin-kind", "socket-forged/"+sp, "", 2, -1, false, append(append([]string{}, in...), "-trusted_roots", rootf)...)
+			t.Stdin, t.StdinSocket = forgedB, true
+		}
+	}
 	add("bundle", "wrong-root", "", 2, -1, false, "-in", qf, "-trusted_roots", wrongRootf)
 	add("bundle", "embedded-root-generated-quote", "", 2, -1, false, "-in", qf)
 	add("bundle", "missing-file", "", 1, -1, false, "-in", qf, "-trusted_roots", filepath.Join(dir, "nope.pem"))
@@ -609,6 +671,12 @@ func c19(x *mon.Ctx) {
 	add("network", "collateral+crl/pck-crl-endpoint-slow-then-fails", "pck-crl-slow", 3, -1, false, netArgs("-get_collateral=true", "-check_crl=true")...)
 	add("network", "collateral+crl/root-crl-endpoint-slow-then-fails", "root-crl-slow", 3, -1, false, netArgs("-get_collateral=true", "-check_crl=true")...)
 	add("network", "collateral/tcbinfo-endpoint-slow-then-fails", "tcbinfo-slow", 3, -1, false, netArgs("-get_collateral=true")...)
+	// endpoints that announce far more than they send (the connection ends early): a failed download like any other
+	add("network", "collateral/tcbinfo-endpoint-declares-8-EiB", "tcbinfo-declares-8-EiB", 3, -1, false, netArgs("-get_collateral=true")...)
+	add("network", "collateral/qeidentity-endpoint-declares-3-GiB", "qeidentity-declares-3-GiB", 3, -1, false, netArgs("-get_collateral=true")...)
+	add("network", "collateral+crl/pck-crl-endpoint-declares-1-TiB", "pck-crl-declares-1-TiB", 3, -1, false, netArgs("-get_collateral=true", "-check_crl=true")...)
+	add("network", "collateral+crl/root-crl-endpoint-declares-8-EiB", "root-crl-declares-8-EiB", 3, -1, false, netArgs("-get_collateral=true", "-check_crl=true")...)
+	add("network", "collateral/crl-endpoint-declares-1-TiB-but-unused", "pck-crl-declares-1-TiB", 0, -1, true, netArgs("-get_collateral=true")...)
 	add("network", "no-collateral/proxy-dead", "dead", 0, -1, true, netArgs()...)
 	add("network", "crl-without-collateral", "honest", 1, -1, false, netArgs("-check_crl=true")...)
 	add("network", "crl-without-collateral-explicit", "honest", 1, -1, false, netArgs("-check_crl=true", "-get_collateral=false")...)
@@ -706,7 +774,35 @@ func c19(x *mon.Ctx) {
 			cmd.Env = append(cmd.Env, "HTTPS_PROXY="+n.proxyURL, "SSL_CERT_FILE="+n.caFile, "SSL_CERT_DIR="+filepath.Join(dir, "nocerts"))
 		}
 		cmd.Env = append(cmd.Env, t.Env...)
-		if t.Stdin != nil {
+		switch {
+		case t.StdinFile != "":
+			f, err := os.Open(t.StdinFile)
+			if err != nil {
+				x.Broken("cannot open " + t.StdinFile)
+				return
+			}
+			defer f.Close()
+			if _, err := f.Seek(t.StdinOff, io.SeekStart); err != nil {
+				x.Broken("cannot seek " + t.StdinFile)
+				return
+			}
+			cmd.Stdin = f
+		case t.StdinSocket:
+			fds, err := syscall.Socketpair(syscall.AF_UNIX, syscall.SOCK_STREAM, 0)
+			if err != nil {
+				x.Broken("socketpair: " + err.Error())
+				return
+			}
+			ours, theirs := os.NewFile(uintptr(fds[0]), "ours"), os.NewFile(uintptr(fds[1]), "theirs")
+			defer theirs.Close()
+			go func() {
+				_, _ = ours.Write(t.Stdin)
+				_ = syscall.Shutdown(int(ours.Fd()), syscall.SHUT_WR)
+				time.Sleep(30 * time.Second) // (the run is over long before; keeps the descriptor alive meanwhile)
+				ours.Close()
+			}()
+			cmd.Stdin = theirs
+		case t.Stdin != nil:
 			cmd.Stdin = bytes.NewReader(t.Stdin)
 		}
 		var stderr, stdout bytes.Buffer
@@ -801,6 +897,7 @@ func c19(x *mon.Ctx) {
 		}
 	}
 	x.Require("baseline", 1, 3, 4)
+	x.Require("stdin-kind", 12, 9, 21)
 	x.Require("network", 5, 12, 20)
 	x.Require("policy-field/mr_td", 4, 10, 16)
 	x.Require("typed-fetch-error", 0, 24, 24)
